@@ -210,7 +210,7 @@ def replay(pid, path):
     for step, fails, marks in sorted(verdicts[1]):
         ev = traces[0]['events'][step - 1]
         print(f'step {step} {ev["op"]}({ev.get("arg", "")}) res={ev["res"]} {ev["exc"]} msg={"".join(map(chr, ev["msg"]))!r} failing={fails}')
-        bad += [c for c in fails if any(c.startswith(p) for p in PLANS[pid]['prefixes'])]
+        bad += [c for c in fails if any(c.startswith(p) for p in (PLANS[pid]['prefixes'] if pid in PLANS else [pid + '_']))]
     if bad:
         print(f'VIOLATION property={pid} replay={path}')
         return 1
